@@ -33,6 +33,9 @@ type C07Case struct {
 	Tape      []byte `json:"tape"`
 	// ParkSend: when the cancellation lands, one SendMsg of the caller is parked inside the transport write
 	ParkSend bool `json:"park_send,omitempty"`
+	// Cause: the caller's context carries a custom cancellation cause (WithCancelCause / WithTimeoutCause); the
+	// statuses the property names are those of ctx.Err(), whatever context.Cause says
+	Cause bool `json:"cause,omitempty"`
 }
 
 func genC07(t *rapid.T) C07Case {
@@ -57,6 +60,7 @@ func genC07(t *rapid.T) C07Case {
 	c.Streams = rapid.IntRange(0, 1).Draw(t, "streams")
 	c.Tape = rapid.SliceOfN(rapid.Byte(), 0, 24).Draw(t, "tape")
 	c.ParkSend = c.Kind != kit.KindServer && !c.Close && rapid.IntRange(0, 3).Draw(t, "park_send") == 0
+	c.Cause = rapid.IntRange(0, 3).Draw(t, "cause") == 0
 	return c
 }
 
@@ -161,6 +165,16 @@ func runC07(t *testing.T, c C07Case, pos int) *c07Run {
 		ctx, cancel := context.WithCancel(context.Background())
 		if c.Deadline {
 			ctx, cancel = context.WithTimeout(context.Background(), time.Duration(c.TimeoutMs)*time.Millisecond)
+		}
+		if c.Cause {
+			why := errors.New("the caller lost interest")
+			if c.Deadline {
+				ctx, cancel = context.WithTimeoutCause(context.Background(), time.Duration(c.TimeoutMs)*time.Millisecond, why)
+			} else {
+				var cc context.CancelCauseFunc
+				ctx, cc = context.WithCancelCause(context.Background())
+				cancel = func() { cc(why) }
+			}
 		}
 		defer cancel()
 		// target call: pre-cancellation program
@@ -448,7 +462,7 @@ func execC07(t *testing.T, c C07Case) (v Verdict) {
 		}
 	}
 	unread := c.NH - c.Read
-	labels := []string{"kind=" + kit.KindNames[c.Kind], fmt.Sprintf("unread=%d", unread), fmt.Sprintf("deadline=%v", c.Deadline),
+	labels := []string{"kind=" + kit.KindNames[c.Kind], fmt.Sprintf("unread=%d", unread), fmt.Sprintf("deadline=%v", c.Deadline), fmt.Sprintf("cause=%v", c.Cause),
 		fmt.Sprintf("bystanders=%d", c.Unary+c.Streams), "htmpl=" + c.HTmpl, fmt.Sprintf("close=%v", c.Close), fmt.Sprintf("park_send=%v", c.ParkSend)}
 	if unread >= 3 {
 		labels = append(labels, "unread>=3")
